@@ -39,14 +39,14 @@ CLAIMS = {
                      "(TokIR/WhatwgRefine.v + Inst/InstWhatwgRefine.v, C01_refines_whatwg_text_and_attributeless_tags_partial): for every input, "
                      "start state among Data / PLAINTEXT / RCDATA / RAWTEXT / script data (escaped, double escaped), last start tag, "
                      "sink whose answers are state switches only (no Script, no EncodingIndicator) and fuel, if feed + end() return "
-                     "normally and every machine the run visits is in one of 32 covered states (Data, PLAINTEXT, RCDATA, RAWTEXT, script "
+                     "normally and every machine the run visits is in one of 33 covered states (Data, PLAINTEXT, RCDATA, RAWTEXT, script "
                      "data and their 17 less-than-sign / end-tag-open / end-tag-name / escape states, tag open, end tag open, tag name, "
-                     "self-closing start tag) with no character reference pending, the formal WHATWG tokenizer stops with the "
+                     "self-closing start tag, bogus comment) with no character reference pending, the formal WHATWG tokenizer stops with the "
                      "same tokens (parse errors dropped, character data compared character by character, U+0000 its own token; start "
                      "tags switch both tokenizers as the sink answers): a simulation relating the interpreter's CR/LF handling inside "
                      "get_char to the standard's preprocessing pass, reconsume, temporary buffer, appropriate end tag, end-of-file "
                      "clauses; obligations discharged per state by symbolic execution of both machines. NOT covered (runs reaching them "
-                     "are outside the theorem): the 8 attribute states, bogus comment, markup declaration open, the comment states, the "
+                     "are outside the theorem): the 8 attribute states, markup declaration open, the comment states, the "
                      "DOCTYPE states, CDATA sections, character references; script pauses and encoding suspensions.",
                 note=TOK_NOTE + " The golden table is an audited snapshot, not an independent transcription.",
                 tech="source-to-Coq translation + reflective Coq checks + golden-table differential + independent WHATWG tokenizer oracle"),
